@@ -1704,3 +1704,10 @@ T("C16", "twin-divmod-utc", UT, _LT_OLD,
             microsecond=nanoseconds // 1000
         )
     )''', "integer split, UTC, truncation on both fields")
+
+MM("C07", "break-revision-after-carving", [
+    (DL, "        filter_and_replace_breaks_connected_to_end_events(graph, loop)\n", ""),
+    (DL, "        sub_graph = detect_loops(sub_graph)\n",
+     "        filter_and_replace_breaks_connected_to_end_events(graph, loop)\n"
+     "        sub_graph = detect_loops(sub_graph)\n")],
+   "R7.9", "break events revised after the loop body was carved out (seed C07-d)")
